@@ -224,10 +224,11 @@ func isTimeoutError(err error) bool {
 	return strings.Contains(msg, "http request timeout") || strings.Contains(msg, "client is not active") || strings.Contains(msg, "context deadline exceeded")
 }
 
-// isSyncingError returns true if error message contains the word "syncing".
+// isSyncingError returns true if error message contains the word "syncing" or
+// if the client itself reports that its beacon node is not synced.
 func isSyncingError(err error) bool {
 	msg := err.Error()
-	return strings.Contains(msg, "syncing") || strings.Contains(msg, "HeadBlockNotFullyVerified")
+	return strings.Contains(msg, "syncing") || strings.Contains(msg, "client is not synced") || strings.Contains(msg, "HeadBlockNotFullyVerified")
 }
 
 // isBadGateway returns true when the error indicates a connectivity or upstream gateway issue.
